@@ -73,18 +73,20 @@ def bounds(tier):
 # ----------------------------------------------------------------------------- initial trees
 SCHEMES = ("pow2-named", "pow2rev-unnamed", "ones-unnamed", "nasty-named")
 SMALL_SCHEMES = ("quotes-named",)  # only for <= 3 tips
+MID_SCHEMES = ("edgelike-mixed",)  # for <= 4 tips: user names that look like the library's generated ones, next to unnamed nodes
+EDGELIKE = ["edge.1", "b", "c", "d"]
 
 
 def initial_model(shape, scheme):
     """model tree for an unlabeled shape under a naming / length scheme"""
     n_edges = sum(1 for _ in _walk_shape(shape)) - 1
-    if scheme in ("pow2-named", "nasty-named", "quotes-named"):
+    if scheme in ("pow2-named", "nasty-named", "quotes-named", "edgelike-mixed"):
         lens = [2.0 ** (k - 2) for k in range(n_edges)]
     elif scheme == "pow2rev-unnamed":
         lens = [2.0 ** (k - 2) for k in range(n_edges)][::-1]
     else:
         lens = [1.0] * n_edges
-    names = NASTY if scheme == "nasty-named" else (QUOTES if scheme == "quotes-named" else PLAIN)
+    names = NASTY if scheme == "nasty-named" else (QUOTES if scheme == "quotes-named" else (EDGELIKE if scheme == "edgelike-mixed" else PLAIN))
     named = scheme in ("pow2-named", "nasty-named", "quotes-named")
     tip_i = itertools.count()
     int_i = itertools.count(1)
@@ -96,6 +98,8 @@ def initial_model(shape, scheme):
             return (names[next(tip_i)], length, ())
         if root:
             name = None
+        elif scheme == "edgelike-mixed":
+            name = "edge.0" if next(int_i) == 1 else None  # one internal node carries a generated-looking name, the rest none
         elif named:
             k = next(int_i)
             name = f"X{k}" if scheme == "pow2-named" else f"n_{k} x"
@@ -851,7 +855,7 @@ def shards(tier, seed):
             if n == b["max_tips"]:
                 depth = b["depth_at_max_tips"]
         for si, _shape in enumerate(tg.shapes(n)):
-            for scheme in tuple(schemes) + (SMALL_SCHEMES if n <= 3 else ()):
+            for scheme in tuple(schemes) + (SMALL_SCHEMES if n <= 3 else ()) + (MID_SCHEMES if n <= 4 else ()):
                 out.append({"part": "bfs", "n": n, "shape": si, "scheme": scheme, "depth": depth})
         if tier == "thorough" and n == 5:
             for si, _shape in enumerate(tg.shapes(n)):
